@@ -314,7 +314,7 @@ func runVecHistory(r *rand.Rand, p vecParams, o vecHistOpts, t *Trace) *Case {
 			}
 			var nodes []uint32
 			if nq == 0 || r.Intn(6) == 0 {
-				nn := 1 + r.Intn(2)
+				nn := 1 + r.Intn(3)
 				for i := 0; i < nn; i++ {
 					if len(resident) > 0 && r.Intn(8) != 0 {
 						nodes = append(nodes, resident[r.Intn(len(resident))].id)
@@ -445,6 +445,55 @@ func runVecHistory(r *rand.Rand, p vecParams, o vecHistOpts, t *Trace) *Case {
 			code := errCode(e)
 			if pan {
 				code = 12
+			}
+			if code == 0 && !pan && len(nodes) > 0 {
+				// C02: the same search with every node id replaced by that node's stored vector (as the
+				// index holds it) must give the same answer
+				snap := comet.VerifSnapshot(idx)
+				stored := map[uint32][]float32{}
+				for _, l := range snap.Lists {
+					for _, e := range l {
+						if _, ok := stored[e.ID]; !ok {
+							stored[e.ID] = e.Vector
+						}
+					}
+				}
+				var lq [][]float32
+				for _, q := range qs {
+					lq = append(lq, cloneVec(q))
+				}
+				okAll := true
+				for _, id := range nodes {
+					v, ok := stored[id]
+					if !ok || v == nil {
+						okAll = false
+						break
+					}
+					lq = append(lq, cloneVec(v))
+				}
+				if okAll {
+					ls := idx.NewSearch().WithScoreAggregation(aggs[aggz]).WithK(k).WithThreshold(thr).WithCutoff(cutoff).WithNProbes(np).WithQuery(lq...)
+					if len(docids) > 0 {
+						ls = ls.WithDocumentIDs(docids...)
+					}
+					var lres []comet.VectorResult
+					var le error
+					lpan := catchPanic(func() { lres, le = ls.Execute() })
+					lcode := errCode(le)
+					if lpan {
+						lcode = 12
+					}
+					outA := make([][2]uint64, len(res))
+					for i, x := range res {
+						outA[i] = [2]uint64{uint64(x.Node.ID()), bits32(x.Score)}
+					}
+					outB := make([][2]uint64, len(lres))
+					for i, x := range lres {
+						outB[i] = [2]uint64{uint64(x.Node.ID()), bits32(x.Score)}
+					}
+					ops = append(ops, func(c *Case) { c.N(9).Pairs(outA).N(lcode).Pairs(outB) })
+					t.Stat("vec.node_search_equals_vector_search_law")
+				}
 			}
 			ops = append(ops, func(c *Case) {
 				c.N(4).Vecs(qs).U32s(nodes).U32s(docids).N(k).F32(thr).N(aggz).N(cutoff).N(np)
